@@ -110,6 +110,9 @@ type DynTx struct {
 	Predict bool `json:"predict,omitempty"`
 	// IndexShift (proof): prove leaf (required + IndexShift) mod total instead of the required one.
 	IndexShift int `json:"index_shift,omitempty"`
+	// LatestWindow (proof): prove the leaf selected under the CURRENT value of the claim submission window instead of the
+	// value the session started with (a prover betting that a governance change of the window moved the selecting block)
+	LatestWindow bool `json:"latest_window,omitempty"`
 	// LeafShift (proof): attach the leaf of index (proved index + LeafShift) to the Merkle path of the proved index.
 	LeafShift int `json:"leaf_shift,omitempty"`
 	// LeafServicer (proof): re-issue the leaf for another servicer key (the signer of the proof tx follows the leaf).
@@ -167,7 +170,12 @@ func RefLeafIndex(prevBlockHash []byte, h pc.SessionHeader, total int64) int64 {
 
 // selector returns the hash that selects the leaf for a session, if the block carrying it is committed.
 func (n *Node) selector(sbh int64) (proofHeight int64, hash []byte, known bool) {
-	proofHeight = sbh + n.paramInt("pocketcore/ClaimSubmissionWindow")*n.paramInt("pos/BlocksPerSession")
+	// the parameters of the session's own start state decide (recorded at every commit); latest when not recorded
+	w, b := n.paramInt("pocketcore/ClaimSubmissionWindow"), n.paramInt("pos/BlocksPerSession")
+	if p, ok := n.sessionParams[sbh]; ok {
+		w, b = p[0], p[1]
+	}
+	proofHeight = sbh + w*b
 	if proofHeight-1 <= n.Height && proofHeight-1 >= 1 {
 		if m := n.BS.LoadBlockMeta(proofHeight - 1); m != nil {
 			return proofHeight, m.BlockID.Hash, true
@@ -217,6 +225,14 @@ func (n *Node) ResolveDyn(d DynTx, txIndex int) ([]byte, DynRes) {
 		if d.Predict && known {
 			set.Junk, set.JunkKeep = true, int(req)
 			res.Junk = true
+		}
+		if d.LatestWindow {
+			ph2 := set.SBH + n.paramInt("pocketcore/ClaimSubmissionWindow")*n.paramInt("pos/BlocksPerSession")
+			if ph2-1 >= 1 && ph2-1 <= n.Height {
+				if m := n.BS.LoadBlockMeta(ph2 - 1); m != nil {
+					req = RefLeafIndex(m.BlockID.Hash, set.Header(), total)
+				}
+			}
 		}
 		_, sorted := pc.GenerateRoot(set.SBH, set.Leaves())
 		idx := int(((req+int64(d.IndexShift))%int64(len(sorted)) + int64(len(sorted))) % int64(len(sorted)))
